@@ -782,6 +782,109 @@ theorem C10_restart_no_restart {ev : Ev St P I V E} {spec : P → I → Outcome 
       simp only [solve] at b1 ⊢
       rw [hfr.selfStatsPrograms, b1]; rfl
 
+/-- **C10_restart_evaluator_state.** A run leaves the evaluator in a faithful state. -/
+theorem C10_restart_evaluator_state {ev : Ev St P I V E} {spec : P → I → Outcome V E} {Inv : St → Prop}
+    (hF : Faithful ev spec Inv) (prm : Params En P) (k : Kind) (exs : List (I × V)) (fuel : Nat)
+    (s : RSolver P) (st : St) (hst : Inv st) (en : En) (dl as : List Bool) :
+    Inv (solveR prm (test k ev exs) fuel s st en dl as).st := by
+  rw [(C10_restart_refines hF prm k exs fuel s st hst en dl as Solver.init).2.2.2]
+  exact C10_evaluator_state hF k exs Solver.init st hst _ dl as
+
+/-- the sub-solver of a meta solver never counts a program: its `_programs` stays 0 and its
+    `_stats["programs"]` never moves (only `RestartPBESolver.solve` increments a counter, its own) -/
+def SubIdle (s : RSolver P) : Prop := s.sub.statsPrograms = 0 ∧ s.sub.programs = 0
+
+/-- one task keeps the sub-solver idle, whatever its end -/
+theorem C10_restart_sub_idle {ev : Ev St P I V E} {spec : P → I → Outcome V E} {Inv : St → Prop}
+    (hF : Faithful ev spec Inv) (prm : Params En P) (k : Kind) (exs : List (I × V)) (fuel : Nat)
+    (s : RSolver P) (st : St) (hst : Inv st) (en : En) (dl as : List Bool) (hs : SubIdle s) :
+    SubIdle (solveR prm (test k ev exs) fuel s st en dl as).solver := by
+  have hT := refinesS_of_faithful hF k exs
+  have h0 : (initTaskR s).sub.statsPrograms = 0 ∧ (initTaskR s).sub.programs = 0 := ⟨hs.1, rfl⟩
+  by_cases ha : (solveR prm (test k ev exs) fuel s st en dl as).status = .finished .accepted
+  · obtain ⟨pre, e, post, sc, hsplit, _, hsol⟩ :=
+      accepted_specR (prm := prm) hT fuel (initTaskR s) st en 0 dl as hst ha
+    obtain ⟨_, _, _, _, g5⟩ := segRun_entry fuel (initTaskR s) en 0 pre e post hsplit
+    rw [solveR, hsol]
+    cases hfx : prm.fixStats <;>
+      simp [SubIdle, closeR, closeTask, testedS, countedS, g5.subStatsPrograms, g5.subPrograms, h0.1, h0.2]
+  · by_cases ht : (solveR prm (test k ev exs) fuel s st en dl as).status = .finished .timeout
+    · obtain ⟨pre, e, post, hsplit, hsol⟩ :=
+        timeout_specR (prm := prm) hT fuel (initTaskR s) st en 0 dl as hst ht
+      obtain ⟨_, _, _, _, g5⟩ := segRun_entry fuel (initTaskR s) en 0 pre e post hsplit
+      rw [solveR, hsol]
+      cases hfx : prm.fixStats <;>
+        simp [SubIdle, closeR, closeTask, g5.subStatsPrograms, g5.subPrograms, h0.1, h0.2]
+    · have hfr := unclosed_frame (prm := prm) (T := test k ev exs) fuel (initTaskR s) st en 0 dl as ha ht
+      exact ⟨by rw [solveR, hfr.subStatsPrograms]; exact h0.1, by rw [solveR, hfr.subPrograms]; exact h0.2⟩
+
+/-- **C10_restart_session.** After any sequence of tasks (each with its own enumerator, examples,
+    clock, answers and fuel), `reset_stats()` and `clear_cache()` calls on one restart solver and one
+    evaluator: the evaluator is in a faithful state, and — from a solver whose sub-solver is idle, in
+    particular a new one — the sub-solver is still idle. -/
+theorem C10_restart_session {ev : Ev St P I V E} {spec : P → I → Outcome V E} {Inv : St → Prop}
+    (hF : Faithful ev spec Inv) (clear : St → St) (hclear : ∀ st, Inv (clear st)) (prm : Params En P) (k : Kind)
+    (ops : List (ROp P I V En)) (s : RSolver P) (st : St) (hst : Inv st) (hs : SubIdle s) :
+    Inv (runSessionR prm k ev clear s st ops).2 ∧ SubIdle (runSessionR prm k ev clear s st ops).1 := by
+  induction ops generalizing s st with
+  | nil => exact ⟨hst, hs⟩
+  | cons op rest ih =>
+    simp only [runSessionR]
+    cases op with
+    | task t en fuel =>
+      exact ih _ _ (C10_restart_evaluator_state hF prm k t.examples fuel s st hst en t.dl t.answers)
+        (C10_restart_sub_idle hF prm k t.examples fuel s st hst en t.dl t.answers hs)
+    | resetStats => exact ih _ _ hst ⟨rfl, hs.2⟩
+    | clearCache => exact ih _ _ (hclear st) hs
+
+theorem subIdle_init : SubIdle (RSolver.init : RSolver P) := ⟨rfl, rfl⟩
+
+/-- **C10_restart_stats_as_is.** What `get_stats("programs")` is as the code stands (C10-F3): after
+    any earlier session on a new restart solver, an accepted task leaves `get_stats("programs")`
+    *equal to the rank* of the accepted program in this task's segmented enumeration — the counts of
+    the earlier tasks are lost (while 'restarts' does accumulate, `C10_restart_rank`). -/
+theorem C10_restart_stats_as_is {ev : Ev St P I V E} {spec : P → I → Outcome V E} {Inv : St → Prop}
+    (hF : Faithful ev spec Inv) (clear : St → St) (hclear : ∀ st, Inv (clear st)) (prm : Params En P)
+    (hfx : prm.fixStats = false) (k : Kind) (before : List (ROp P I V En)) (st₀ : St) (hst : Inv st₀)
+    (exs : List (I × V)) (fuel : Nat) (en : En) (dl as : List Bool) :
+    let r := runSessionR prm k ev clear RSolver.init st₀ before
+    (solveR prm (test k ev exs) fuel r.1 r.2 en dl as).status = .finished .accepted →
+    ∃ pre e post, segOf prm k spec exs fuel r.1 en = pre ++ e :: post ∧
+      (solveR prm (test k ev exs) fuel r.1 r.2 en dl as).solver.self.statsPrograms = pre.length + 1 := by
+  intro r hend
+  obtain ⟨hinv, hidle⟩ := C10_restart_session hF clear hclear prm k before RSolver.init st₀ hst subIdle_init
+  obtain ⟨pre, e, post, h1, _, _, h4, _⟩ := C10_restart_rank hF prm k exs fuel r.1 r.2 hinv en dl as hend
+  refine ⟨pre, e, post, h1, ?_⟩
+  rw [h4]
+  have h0 : r.1.sub.statsPrograms = 0 := hidle.1
+  simp [statsBase, hfx, initTaskR, initTask, h0]
+
+/-! ### the real evaluator -/
+section dslR
+variable {σ : Type} [DecidableEq σ]
+
+/-- **C10_restart for the real evaluator** (C11 model of `DSLEvaluator.eval`, every DSL semantics,
+    cache on or off), after every earlier session on the same restart solver and evaluator: the
+    yielded programs are exactly the programs of the segmented enumeration whose *compositional*
+    value on every example input is the example output, in order, up to the first one answered True;
+    none of them is wrong. -/
+theorem C10_restart_dsl_yields (S : C11.Sem σ V E) (useCache : Bool) (prm : Params En (Tree σ)) (k : Kind)
+    (before : List (ROp (Tree σ) (List V) V En)) (exs : List (List V × V)) (fuel : Nat) (en : En)
+    (dl as : List Bool) :
+    let r := runSessionR prm k (dslEv S useCache) C11.clearCache RSolver.init [] before
+    let es := segProgs prm k (C11.specEval S) exs fuel r.1 en
+    (solveR prm (test k (dslEv S useCache) exs) fuel r.1 r.2 en dl as).yielded =
+      upToAccepted ((es.take (horizon (verdict k (C11.specEval S) exs) es dl)).filter (sat (C11.specEval S) exs)) as ∧
+    ∀ p ∈ (solveR prm (test k (dslEv S useCache) exs) fuel r.1 r.2 en dl as).yielded,
+      ∀ ex ∈ exs, C11.specEval S p ex.1 = .value ex.2 := by
+  intro r es
+  have hs := (C10_restart_session (dslEv_faithful S useCache) C11.clearCache (fun _ => cacheSound_nil S) prm k
+    before RSolver.init [] (cacheSound_nil S) subIdle_init).1
+  exact ⟨C10_restart_yields (dslEv_faithful S useCache) prm k exs fuel r.1 r.2 hs en dl as,
+    fun p hp => (C10_restart_never_wrong (dslEv_faithful S useCache) prm k exs fuel r.1 r.2 hs en dl as p hp).2⟩
+
+end dslR
+
 end restart
 --RESTART-END
 
